@@ -169,19 +169,24 @@ CLAIMED = {
             "constructs included (every lexer state is the text advanced by k <= n characters); conditional compilation "
             "keeps every surviving line unchanged at its line number; the type checker (Model/Preproc.v) attaches every "
             "operand fault to that operand's token - and reports every faulty operand - and a wrong operand count to the "
-            "operation. NOT theorems: parser diagnostics, the quoted line and caret, attribution inside included files, "
-            "run-time warnings - decided by the planted-fault oracle (15 fault kinds x random layout) and an "
+            "operation; the white space printed in front of the caret (Model/Caret.v) brings it to the display column of "
+            "the reported character for every distance between tab stops. NOT theorems: parser diagnostics, which line "
+            "is quoted, attribution inside included files, run-time warnings - decided by the planted-fault oracle (15 "
+            "fault kinds x random layout incl. tabs inside the line), a check of the diagnostic as printed, and an "
             "implementation-only check that the text at every reported line:column is the token.",
-            "trusted: Model/Lexer.v, Model/Ifdef.v, Model/Preproc.v (differential incl. the attachment of every message); "
-            "planted-fault oracle"),
+            "trusted: Model/Lexer.v, Model/Ifdef.v, Model/Preproc.v (differential incl. the attachment of every message), "
+            "Model/Caret.v (differential against align_caret and str.expandtabs); planted-fault oracle"),
     "C18": ("PARTIAL proof. Coq theorems on the hand model of parse_args (Model/Cli.v; FLAGS and PICKY_FLAGS regenerated "
             "from hera/main.py): an accepted argument vector has exactly the settings its flags denote — none of the "
             "informational flags, every mode-specific flag compatible with the chosen mode, not both --quiet and --verbose, "
             "a well-formed --init; an argument that looks like a flag but is none is refused on the spot; a --throttle "
-            "value that is not a decimal number is refused in both syntaxes, and an accepted one is a natural number. NOT "
+            "value that is not a decimal number is refused in both syntaxes, and an accepted one is a natural number; the "
+            "two spellings `--throttle=v` / `--throttle v` (and `--init=v` / `--init v`) continue the flag loop identically "
+            "for every text v. NOT "
             "theorems: exit statuses 0/1/3, absence of tracebacks, stdout/stderr separation, the assemble files — decided "
             "by the oracle on hera.main.main over enumerated vectors x valid, invalid, warning-only, empty, hex, missing, "
-            "directory, non-ASCII and unwritable inputs.",
+            "directory, path-through-a-file, over-long name, non-ASCII and unwritable inputs, and by comparing the two "
+            "spellings of valued flags on the real parser.",
             "trusted: Model/Cli.v (differential on enumerated argument vectors), the oracle in tools/props/C18.py"),
     "C19": ("PARTIAL proof. Coq theorems on the hand model of the library's div/mod arithmetic (Model/Stdlib.v, shared by "
             "both calling conventions): for all 16-bit arguments div is signed division truncating towards zero and mod "
